@@ -184,4 +184,219 @@ theorem AInv_push (P : Nat → Nat → Nat → Prop) (el e : Election) (newRoot 
       exact ⟨hne, hold⟩
     · rw [if_neg hdec]; exact hold
 
+/-- the vote of a first-round root -/
+def firstVote (om : List (Nat × Root)) (s : Nat) : VoteValue :=
+  match om.lookup s with
+  | some r => { decided := false, yes := true, observedRoot := r.id }
+  | none => { decided := false, yes := false }
+
+/-- the vote of a later root, from the finished tally -/
+def roundVote (el : Election) (t : Tally) : VoteValue :=
+  { yes := Gen.Election.voteYes t.yes.sum t.no.sum,
+    observedRoot := if Gen.Election.voteYes t.yes.sum t.no.sum then (match t.subject with | some h => h | none => 0) else 0,
+    decided := Gen.Election.voteDecided (hasQuorum el.vals t.yes) (hasQuorum el.vals t.no) }
+
+def tally0 (el : Election) : Tally := { yes := el.vals.newCounter, no := el.vals.newCounter, all := el.vals.newCounter }
+
+theorem voteLoop_cons_first (el : Election) (nr : Root) (round : Nat) (om : List (Nat × Root)) (obs : List Root)
+    (s : Nat) (rest : List Nat) (e : Election) (hf : Gen.Election.firstRound round = true) :
+    voteLoop el nr round om obs (s :: rest) e = voteLoop el nr round om obs rest (pushVote e nr s (firstVote om s)) := by
+  rw [voteLoop, if_pos hf]
+  congr 1
+  unfold firstVote pushVote
+  cases om.lookup s <;> rfl
+
+theorem voteLoop_cons_later (el : Election) (nr : Root) (round : Nat) (om : List (Nat × Root)) (obs : List Root)
+    (s : Nat) (rest : List Nat) (e : Election) (hf : Gen.Election.firstRound round = false) :
+    voteLoop el nr round om obs (s :: rest) e =
+      match tally el s obs (tally0 el) with
+      | .error x => .error x
+      | .ok t => if Gen.Election.notEnoughVotes (hasQuorum el.vals t.all) then .error .notEnoughVotes
+                 else voteLoop el nr round om obs rest (pushVote e nr s (roundVote el t)) := by
+  rw [voteLoop, if_neg (by simp [hf])]
+  rfl
+
+theorem voteLoop_inv (P : Nat → Nat → Nat → Prop) (el : Election) (nr : Root) (round : Nat)
+    (om : List (Nat × Root)) (obs : List Root)
+    (hv : ∀ k vote, (k, vote) ∈ el.votes → vote.yes = true → P el.frameToDecide k.2 vote.observedRoot)
+    (hom : Gen.Election.firstRound round = true → ∀ s r, om.lookup s = some r → P el.frameToDecide s r.id)
+    (hr : Gen.Election.firstRound round = false → el.frameToDecide + 2 ≤ nr.frame)
+    (subjects : List Nat) (e e' : Election) (hacc : AInv P el e subjects)
+    (h : voteLoop el nr round om obs subjects e = .ok e') : AInv P el e' [] := by
+  induction subjects generalizing e with
+  | nil => simp only [voteLoop] at h; cases h; exact hacc
+  | cons s rest ih =>
+    by_cases hf : Gen.Election.firstRound round = true
+    · rw [voteLoop_cons_first _ _ _ _ _ _ _ _ hf] at h
+      refine ih _ (AInv_push P el e nr s rest _ hacc ?_ ?_) h
+      · intro hy
+        unfold firstVote at hy ⊢
+        cases hl : om.lookup s with
+        | none => rw [hl] at hy; cases hy
+        | some r => exact hom hf s r hl
+      · intro hd; unfold firstVote at hd; cases hl : om.lookup s <;> rw [hl] at hd <;> cases hd
+    · have hf' : Gen.Election.firstRound round = false := by simpa using hf
+      rw [voteLoop_cons_later _ _ _ _ _ _ _ _ hf'] at h
+      cases ht : tally el s obs (tally0 el) with
+      | error x => rw [ht] at h; cases h
+      | ok t =>
+        rw [ht] at h
+        simp only at h
+        by_cases hne : Gen.Election.notEnoughVotes (hasQuorum el.vals t.all) = true
+        · rw [if_pos hne] at h; cases h
+        · rw [if_neg hne] at h
+          have tinv : TInv P el.frameToDecide s t := tally_inv P el s hv obs (tally0 el) t
+            { some := by intro x hx; cases hx
+              none := fun _ => ⟨rfl, rfl⟩ } ht
+          refine ih _ (AInv_push P el e nr s rest _ hacc ?_ (fun _ => hr hf')) h
+          intro hy
+          have hy' : Gen.Election.voteYes t.yes.sum t.no.sum = true := hy
+          show P el.frameToDecide s (if Gen.Election.voteYes t.yes.sum t.no.sum = true then
+            (match t.subject with | some h => h | none => 0) else 0)
+          rw [if_pos hy']
+          cases hs : t.subject with
+          | some x => exact tinv.some x hs
+          | none =>
+            exfalso
+            obtain ⟨h0, hna⟩ := tinv.none hs
+            have hq : hasQuorum el.vals t.no = true := by
+              rw [hna]; simpa [Gen.Election.notEnoughVotes] using hne
+            have hpos := quorum_pos el.vals.total
+            unfold hasQuorum Gen.Pos.hasQuorum Vals.quorum at hq
+            unfold Gen.Election.voteYes at hy'
+            rw [h0] at hy'
+            simp only [decide_eq_true_eq] at hq hy'
+            omega
+
+/-- `observedRootsMap`: every entry is one of the seen roots, filed under its slot validator -/
+theorem seenMap_sound (l : List Root) (m0 : List (Nat × Root)) (Q : Nat → Root → Prop)
+    (h0 : ∀ x ∈ m0, Q x.1 x.2) (hl : ∀ r ∈ l, Q r.validator r) :
+    ∀ x ∈ l.foldl (fun m r => (r.validator, r) :: m.filter (fun x => x.1 != r.validator)) m0, Q x.1 x.2 := by
+  induction l generalizing m0 with
+  | nil => exact h0
+  | cons r rest ih =>
+    simp only [List.foldl_cons]
+    apply ih
+    · intro x hx
+      rcases List.mem_cons.1 hx with rfl | hx
+      · exact hl r List.mem_cons_self
+      · exact h0 x (List.mem_filter.1 hx).1
+    · intro r' hr'; exact hl r' (List.mem_cons_of_mem _ hr')
+
+/-- frame arithmetic of `ProcessRoot` below 2^32 -/
+theorem round_facts (rootFrame ftd : Nat) (h1 : rootFrame < 4294967296) (h2 : ftd < 4294967296)
+    (hs : Gen.Election.skipOldRoot rootFrame ftd = false) :
+    ftd < rootFrame ∧ Gen.Election.round rootFrame ftd = rootFrame - ftd ∧
+    (Gen.Election.firstRound (Gen.Election.round rootFrame ftd) = true → Gen.Election.prevFrame rootFrame = ftd) ∧
+    (Gen.Election.firstRound (Gen.Election.round rootFrame ftd) = false → ftd + 2 ≤ rootFrame) ∧
+    Gen.Election.prevFrame rootFrame = rootFrame - 1 := by
+  unfold Gen.Election.skipOldRoot at hs
+  have hlt : ftd < rootFrame := by simpa using hs
+  unfold Gen.Election.round Gen.Election.firstRound Gen.Election.prevFrame
+  have e1 : (rootFrame + 4294967296 - ftd % 4294967296) % 4294967296 = rootFrame - ftd := by omega
+  have e2 : (rootFrame + 4294967296 - 1 % 4294967296) % 4294967296 = rootFrame - 1 := by omega
+  rw [e1, e2]
+  refine ⟨hlt, rfl, ?_, ?_, rfl⟩
+  · intro h; simp only [decide_eq_true_eq] at h; omega
+  · intro h; simp only [decide_eq_false_iff_not] at h; omega
+
+/-- the not yet decided subjects, as computed by `processRoot` -/
+def notDecided (el : Election) : List Nat :=
+  (el.vals.sorted.map (·.1)).filter (fun v => (el.decidedRoots.lookup v).isNone)
+
+def seenRoots (observe : Nat → Nat → Bool) (frameRoots : Nat → List Root) (nr : Root) : List Root :=
+  (frameRoots (Gen.Election.prevFrame nr.frame)).filter (fun r => observe nr.id r.id)
+
+def seenMap (seen : List Root) : List (Nat × Root) :=
+  seen.foldl (fun m r => (r.validator, r) :: m.filter (fun x => x.1 != r.validator)) []
+
+/-- `processRoot` with its three early exits made explicit -/
+theorem processRoot_eq (observe : Nat → Nat → Bool) (frameRoots : Nat → List Root) (el : Election) (nr : Root) :
+    processRoot observe frameRoots el nr =
+      match chooseAtropos el with
+      | .error x => .error x
+      | .ok (some res) => .ok (el, some res)
+      | .ok none =>
+        if Gen.Election.skipOldRoot nr.frame el.frameToDecide then .ok (el, none) else
+        if Gen.Election.roundZero (Gen.Election.round nr.frame el.frameToDecide) then .ok (el, none) else
+        match voteLoop el nr (Gen.Election.round nr.frame el.frameToDecide) (seenMap (seenRoots observe frameRoots nr))
+            (seenRoots observe frameRoots nr) (notDecided el) el with
+        | .error x => .error x
+        | .ok el' =>
+          match chooseAtropos el' with
+          | .error x => .error x
+          | .ok res => .ok (el', res) := rfl
+
+/-- the three ways `processRoot` can succeed -/
+theorem processRoot_cases (observe : Nat → Nat → Bool) (frameRoots : Nat → List Root) (el : Election) (nr : Root)
+    (el' : Election) (res : Option (Nat × Nat)) (h : processRoot observe frameRoots el nr = .ok (el', res)) :
+    (el' = el ∧ ∃ r, chooseAtropos el = .ok (some r) ∧ res = some r) ∨
+    (el' = el ∧ chooseAtropos el = .ok none ∧ res = none ∧
+      (Gen.Election.skipOldRoot nr.frame el.frameToDecide = true ∨
+       Gen.Election.roundZero (Gen.Election.round nr.frame el.frameToDecide) = true)) ∨
+    (chooseAtropos el = .ok none ∧ Gen.Election.skipOldRoot nr.frame el.frameToDecide = false ∧
+      Gen.Election.roundZero (Gen.Election.round nr.frame el.frameToDecide) = false ∧
+      voteLoop el nr (Gen.Election.round nr.frame el.frameToDecide) (seenMap (seenRoots observe frameRoots nr))
+        (seenRoots observe frameRoots nr) (notDecided el) el = .ok el' ∧
+      chooseAtropos el' = .ok res) := by
+  rw [processRoot_eq] at h
+  cases hc : chooseAtropos el with
+  | error x => rw [hc] at h; cases h
+  | ok r =>
+    rw [hc] at h
+    cases r with
+    | some r => simp only at h; cases h; exact Or.inl ⟨rfl, r, rfl, rfl⟩
+    | none =>
+      simp only at h
+      by_cases hs : Gen.Election.skipOldRoot nr.frame el.frameToDecide = true
+      · rw [if_pos hs] at h; cases h; exact Or.inr (Or.inl ⟨rfl, rfl, rfl, Or.inl hs⟩)
+      · rw [if_neg hs] at h
+        by_cases hz : Gen.Election.roundZero (Gen.Election.round nr.frame el.frameToDecide) = true
+        · rw [if_pos hz] at h; cases h; exact Or.inr (Or.inl ⟨rfl, rfl, rfl, Or.inr hz⟩)
+        · rw [if_neg hz] at h
+          cases hvl : voteLoop el nr (Gen.Election.round nr.frame el.frameToDecide)
+              (seenMap (seenRoots observe frameRoots nr)) (seenRoots observe frameRoots nr) (notDecided el) el with
+          | error x => rw [hvl] at h; cases h
+          | ok e2 =>
+            rw [hvl] at h
+            simp only at h
+            cases hc2 : chooseAtropos e2 with
+            | error x => rw [hc2] at h; cases h
+            | ok r2 =>
+              rw [hc2] at h
+              cases h
+              exact Or.inr (Or.inr ⟨rfl, by simpa using hs, by simpa using hz, rfl, hc2⟩)
+
+/-- one successful `processRoot` call preserves the invariant, the frame to decide and the validators -/
+theorem processRoot_inv (P : Nat → Nat → Nat → Prop) (observe : Nat → Nat → Bool) (frameRoots : Nat → List Root)
+    (el : Election) (nr : Root) (el' : Election) (res : Option (Nat × Nat))
+    (hinv : Inv P el) (hids : (el.vals.sorted.map (·.1)).Nodup) (hsound : SoundRoots P frameRoots)
+    (hf : el.frameToDecide < 4294967296) (hnr : nr.frame < 4294967296)
+    (h : processRoot observe frameRoots el nr = .ok (el', res)) :
+    Inv P el' ∧ el'.frameToDecide = el.frameToDecide ∧ el'.vals = el.vals := by
+  rcases processRoot_cases _ _ _ _ _ _ h with ⟨rfl, _⟩ | ⟨rfl, _⟩ | ⟨_, hs, _, hvl, _⟩
+  · exact ⟨hinv, rfl, rfl⟩
+  · exact ⟨hinv, rfl, rfl⟩
+  · obtain ⟨_, _, hfirst, hlater, _⟩ := round_facts nr.frame el.frameToDecide hnr hf hs
+    have hacc : AInv P el el (notDecided el) :=
+      { inv := hinv, ftd := rfl, vals := rfl
+        fresh := by
+          intro s hs
+          exact lookup_none_not_mem _ _ (List.mem_filter.1 hs).2
+        nd := List.Pairwise.filter _ hids }
+    have := voteLoop_inv P el nr _ (seenMap (seenRoots observe frameRoots nr)) (seenRoots observe frameRoots nr)
+      hinv.votes ?_ hlater (notDecided el) el el' hacc hvl
+    · exact ⟨this.inv, this.ftd, this.vals⟩
+    · intro hfr s r hl
+      have hm := lookup_mem _ _ _ hl
+      have := seenMap_sound (seenRoots observe frameRoots nr) [] (fun k r => r.validator = k ∧ P el.frameToDecide r.validator r.id)
+        (by intro x hx; cases hx) (by
+          intro r hr
+          refine ⟨rfl, ?_⟩
+          have := hsound _ r (List.mem_filter.1 hr).1
+          rwa [hfirst hfr] at this) (s, r) hm
+      obtain ⟨h1, h2⟩ := this
+      simp only at h1 h2
+      rw [← h1]; exact h2
+
 end ElectionProofs
